@@ -32,7 +32,35 @@ type CrashKV struct {
 	fuse   int // -1 = disarmed; otherwise number of writes still allowed
 	blown  bool
 	Quiet  bool // do not log KV events
+	// pause: after pauseIn more writes have been applied, the writer blocks until Release
+	pauseIn int
+	pauseCh chan struct{}
+	Paused  bool
 }
+
+// PauseAfter makes the writer of the k-th next write block (after the write was applied)
+// until Release is called: a scheduler gate at a durable-write boundary.
+func (c *CrashKV) PauseAfter(k int) {
+	c.mu.Lock()
+	c.pauseIn = k
+	c.pauseCh = make(chan struct{})
+	c.Paused = false
+	c.mu.Unlock()
+}
+
+// Release lets a paused writer continue and clears the gate.
+func (c *CrashKV) Release() {
+	c.mu.Lock()
+	ch := c.pauseCh
+	c.pauseCh = nil
+	c.pauseIn = 0
+	c.mu.Unlock()
+	if ch != nil {
+		close(ch)
+	}
+}
+
+func (c *CrashKV) IsPaused() bool { c.mu.Lock(); defer c.mu.Unlock(); return c.Paused }
 
 func NewCrashKV(tr *Tracer, node string) *CrashKV {
 	return &CrashKV{m: map[string][]byte{}, tr: tr, node: node, fuse: -1}
@@ -111,9 +139,20 @@ func (c *CrashKV) apply(ops []kvop, batch bool) {
 		}
 	}
 	w := c.writes
+	var wait chan struct{}
+	if c.pauseCh != nil && c.pauseIn > 0 {
+		c.pauseIn--
+		if c.pauseIn == 0 {
+			wait = c.pauseCh
+			c.Paused = true
+		}
+	}
 	c.mu.Unlock()
 	if c.tr != nil && !c.Quiet {
 		c.tr.Emit("KV", summarize(c.node, w, ops, batch))
+	}
+	if wait != nil {
+		<-wait
 	}
 }
 
@@ -176,7 +215,7 @@ func (c *CrashKV) Query(_ context.Context, q dsq.Query) (dsq.Results, error) {
 }
 
 func (c *CrashKV) Sync(context.Context, ds.Key) error { return nil }
-func (c *CrashKV) Close() error                        { return nil }
+func (c *CrashKV) Close() error                       { return nil }
 
 type crashBatch struct {
 	c   *CrashKV
